@@ -33,6 +33,8 @@ pub struct Cpu {
   pub stack: [u64; STACK_SLOTS],
   pub sp: usize, // concrete slot index of [rsp]
   pub fault: bool,
+  /// the guest register file the prologue/epilogue address through rdi ([rdi + disp8], little endian)
+  pub smem: [u8; 32],
 }
 
 fn parity(v: u8) -> bool { (v.count_ones() & 1) == 0 }
@@ -41,7 +43,7 @@ fn mask(size: u8) -> u64 { match size { 1 => 0xff, 2 => 0xffff, 4 => 0xffff_ffff
 fn signbit(size: u8) -> u64 { match size { 1 => 0x80, 2 => 0x8000, 4 => 0x8000_0000, _ => 1u64 << 63 } }
 
 #[derive(Clone, Copy)]
-pub enum Opnd { Reg(usize), Reg8Hi(usize), StackByteOff(usize), None }
+pub enum Opnd { Reg(usize), Reg8Hi(usize), StackByteOff(usize), Struct(usize), None }
 
 impl Cpu {
   pub fn get(&self, o: Opnd, size: u8) -> u64 {
@@ -56,6 +58,12 @@ impl Cpu {
         let lo = self.stack[slot] >> sh;
         // accesses that straddle a slot are not needed by the templates
         lo & mask(size)
+      }
+      Opnd::Struct(off) => {
+        let mut v: u64 = 0;
+        let mut i = 0;
+        while i < size as usize { if off + i < 32 { v |= (self.smem[off + i] as u64) << (8 * i); } i += 1; }
+        v
       }
       Opnd::None => 0,
     }
@@ -77,6 +85,11 @@ impl Cpu {
         if slot >= STACK_SLOTS || (off % 8) + size as usize > 8 { self.fault = true; return; }
         let m = mask(size) << sh;
         self.stack[slot] = (self.stack[slot] & !m) | ((v & mask(size)) << sh);
+      }
+      Opnd::Struct(off) => {
+        if off + size as usize > 32 { self.fault = true; return; }
+        let mut i = 0;
+        while i < size as usize { self.smem[off + i] = (v >> (8 * i)) as u8; i += 1; }
       }
       Opnd::None => {}
     }
@@ -262,6 +275,11 @@ pub fn run(cpu: &mut Cpu, code: &[u8], ovr: [(usize, u8); 4], start: usize, end:
           let disp = if md == 1 { d.i8() } else if md == 0 { 0 } else { return Stop::Unsupported(ins_start); };
           if disp < 0 { return Stop::StackFault; }
           Opnd::StackByteOff(disp as usize)
+        } else if rm == 7 && rex_b == 0 && md <= 1 {
+          // [rdi] / [rdi + disp8]: the guest register file
+          let disp = if md == 1 { d.i8() } else { 0 };
+          if disp < 0 || disp > 28 { return Stop::StackFault; }
+          Opnd::Struct(disp as usize)
         } else { return Stop::Unsupported(ins_start); };
         (reg, rmop)
       }};
